@@ -206,7 +206,7 @@ CHECKS["C06"] = _e1("C06", "Generated interleavings incl. anomaly templates; the
     "overlapping read-write transactions with intersecting read/write sets of which at least one was refused (or would have been an anomaly).", 60, 1500)
 CHECKS["C07"] = _e1("C07", "Exact two-sided oracle for the Commit result in generated interleavings (boundaries: commit right before Begin, buffer reads, absent keys, deletes, rw transactions without writes, long histories).",
     "Commit/Update error vs the model's prediction in both directions (refused iff a store-read key was written by a transaction that committed after the snapshot).",
-    "a predicted-and-observed conflict AND a commit that succeeds although a concurrent transaction committed other keys.", 60, 3000)
+    "a predicted-and-observed conflict AND a commit that succeeds although a concurrent transaction committed other keys.", 160, 4000)
 CHECKS["C08"] = _e1("C08", "Generated abandonment (Discard, conflict, failing Update closure) and misuse, followed by flushes, compactions and restarts; token identity makes leaked writes directly visible.",
     "any read returning a token of a transaction that never committed; misuse calls must return the documented error (any applicable one) and Get not-found; Update must return the closure's own error; View/Update after Close must return ErrDBClosed without running the closure.",
     "an abandoned write set (discard with writes / failed closure after writes) in a program that flushed and then reopened or compacted.", 45, 1500)
